@@ -1,5 +1,6 @@
 import Martian.LexerLRGen
 import Martian.FormatExp
+import Martian.FormatCall2
 
 /-!
 C08/C09: semantic values for the LR driver model on the VALUE-EXPRESSION
@@ -16,6 +17,8 @@ a production without an action has goyacc's default `$$ = $1`.
 -/
 namespace Martian.LexerLR
 open Martian.FormatExp (Exp Tok)
+open Martian.FormatCall (Bind)
+open Martian.FormatCall2 (Call2 Mods)
 
 abbrev Bytes := List UInt8
 
@@ -28,12 +31,20 @@ inductive Val
   | exps (l : List Exp)
   | kvs (l : List (Bytes × Exp))       -- a Go map under construction, in insertion order
   | result (e : Exp)                   -- `mmlex.exp`, set by `file: val_exp`
+  | mods (l p v : Bool)                -- `modifiers`
+  | bind (b : Bind)                    -- a binding; the wildcard binding has the id `*`
+  | binds (l : List Bind)              -- `BindStms.List` (also of a `using` block)
+  | call (c : Call2)
+  | resultCall (c : Call2)             -- `global.call` of `file: call_stm`
   deriving Repr, Inhabited
 
 inductive Sem
   | fileVal | idsSnoc | idsOne | expsSnoc | expsOne | kvSnoc | kvOne | svSnoc | svOne | expOfV | expOfR
   | floatE | intE | strE | nullE | arrE | arrEmpty | mapE | structE | mapEmpty | trueE | falseE
   | refCallOut | refCallDefault | refCall | refSelf | refSelfOut
+  | fileCall | callBegin | callBeginAs | callBinds | callMapBinds | callUsing | modsEmpty | modsLocal | modsPre | modsVol
+  | bindsEmpty | bindsSnoc | bindsOne | modLocal | modPre | modVol | modDisabled | bindStm | wildRef | wildSelf
+  | splitColl | splitRef
   deriving Repr, DecidableEq
 
 /-- the text of each modelled action in grammar.go (normalised by the extractor) -/
@@ -91,7 +102,51 @@ def semTable : List (String × Sem) := [
   ("{ mmVAL.rexp = &RefExp{Node: NewAstNode(mmDollar[1].loc), Kind: KindSelf, Id: mmDollar[3].intern.Get(mmDollar[3].val)} }",
     .refSelf),
   ("{ mmVAL.rexp = &RefExp{Node: NewAstNode(mmDollar[1].loc), Kind: KindSelf, Id: mmDollar[3].intern.Get(mmDollar[3].val), OutputId: mmDollar[5].intern.Get(mmDollar[5].val)} }",
-    .refSelfOut)
+    .refSelfOut),
+  ("{ global := NewAst(nil, mmDollar[1].call, mmDollar[1].loc.File) mmlex.(*mmLexInfo).global = global }",
+    .fileCall),
+  ("{ id := mmDollar[3].intern.Get(mmDollar[3].val) mmVAL.call = &CallStm{Node: NewAstNode(mmDollar[1].loc), Modifiers: mmDollar[2].modifiers, Id: id, DecId: id} }",
+    .callBegin),
+  ("{ mmVAL.call = &CallStm{Node: NewAstNode(mmDollar[1].loc), Modifiers: mmDollar[2].modifiers, Id: mmDollar[5].intern.Get(mmDollar[5].val), DecId: mmDollar[3].intern.Get(mmDollar[3].val)} }",
+    .callBeginAs),
+  ("{ mmDollar[1].call.Bindings = mmDollar[3].bindings mmVAL.call = mmDollar[1].call }",
+    .callBinds),
+  ("{ mmDollar[2].call.Bindings = mmDollar[4].bindings mmDollar[2].call.Mapping = &mapSourcePlaceholder mmVAL.call = mmDollar[2].call }",
+    .callMapBinds),
+  ("{ mmDollar[1].call.Modifiers.Bindings = mmDollar[4].bindings mmVAL.call = mmDollar[1].call }",
+    .callUsing),
+  ("{ mmVAL.modifiers = new(Modifiers) }",
+    .modsEmpty),
+  ("{ mmVAL.modifiers.Local = true }",
+    .modsLocal),
+  ("{ mmVAL.modifiers.Preflight = true }",
+    .modsPre),
+  ("{ mmVAL.modifiers.Volatile = true }",
+    .modsVol),
+  ("{ mmVAL.bindings = &BindStms{Node: NewAstNode(mmDollar[0].loc)} }",
+    .bindsEmpty),
+  ("{ mmDollar[1].bindings.List = append(mmDollar[1].bindings.List, mmDollar[2].binding) mmVAL.bindings = mmDollar[1].bindings }",
+    .bindsSnoc),
+  ("{ mmVAL.bindings = &BindStms{Node: NewAstNode(mmDollar[0].loc), List: []*BindStm{mmDollar[1].binding}} }",
+    .bindsOne),
+  ("{ mmVAL.binding = &BindStm{Node: NewAstNode(mmDollar[1].loc), Id: local, Exp: mmDollar[3].vexp} }",
+    .modLocal),
+  ("{ mmVAL.binding = &BindStm{Node: NewAstNode(mmDollar[1].loc), Id: preflight, Exp: mmDollar[3].vexp} }",
+    .modPre),
+  ("{ mmVAL.binding = &BindStm{Node: NewAstNode(mmDollar[1].loc), Id: volatile, Exp: mmDollar[3].vexp} }",
+    .modVol),
+  ("{ mmVAL.binding = &BindStm{Node: NewAstNode(mmDollar[1].loc), Id: disabled, Exp: mmDollar[3].rexp} }",
+    .modDisabled),
+  ("{ mmVAL.binding = &BindStm{Node: NewAstNode(mmDollar[1].loc), Id: mmDollar[1].intern.Get(mmDollar[1].val), Exp: mmDollar[3].exp} }",
+    .bindStm),
+  ("{ mmVAL.binding = &BindStm{Node: NewAstNode(mmDollar[1].loc), Id: \"*\", Exp: mmDollar[3].rexp} }",
+    .wildRef),
+  ("{ mmVAL.binding = &BindStm{Node: NewAstNode(mmDollar[1].loc), Id: \"*\", Exp: &RefExp{Node: NewAstNode(mmDollar[3].loc), Kind: KindSelf}} }",
+    .wildSelf),
+  ("{ mmVAL.binding = &BindStm{Node: NewAstNode(mmDollar[1].loc), Id: mmDollar[1].intern.Get(mmDollar[1].val), Exp: &SplitExp{valExp: valExp{Node: NewAstNode(mmDollar[3].loc)}, Value: mmDollar[4].vexp, Source: mmDollar[4].vexp.(MapCallSource)}} }",
+    .splitColl),
+  ("{ mmVAL.binding = &BindStm{Node: NewAstNode(mmDollar[1].loc), Id: mmDollar[1].intern.Get(mmDollar[1].val), Exp: &SplitExp{valExp: valExp{Node: NewAstNode(mmDollar[3].loc)}, Value: mmDollar[4].rexp}} }",
+    .splitRef)
 ]
 
 def semOfBody (body : String) : Option Sem := (semTable.find? fun p => p.1 == body).map (·.2)
@@ -100,6 +155,13 @@ def semOfBody (body : String) : Option Sem := (semTable.find? fun p => p.1 == bo
 def idOf : Val → Option Bytes
   | .tok (.id w) => some w
   | _ => none
+
+/-- `BindStms.List` as the parser builds it → the bindings and the final
+wildcard binding (`* = …`), if any -/
+def splitWild (bs : List Bind) : List Bind × Option Exp :=
+  match bs.getLast? with
+  | some b => if b.id == Martian.FormatCall2.sStar then (bs.dropLast, some b.exp) else (bs, Option.none)
+  | Option.none => ([], Option.none)
 
 /-- a modelled action on `$1 … $k`; `none` = the Go action would panic
 (`parseInt` / `unquote` on a text the scanner does not emit) or the values do
@@ -133,6 +195,32 @@ def semApply : Sem → List Val → Option Val
   | .idsSnoc, [.ids l, _, v] => (idOf v).map fun x => .ids (l ++ [x])
   | .idsOne, [v] => (idOf v).map fun x => .ids [x]
   | .fileVal, [.exp e] => some (.result e)
+  -- call statements (`file: call_stm`)
+  | .modsEmpty, [] => some (.mods false false false)
+  | .modsLocal, [.mods _ p v, _] => some (.mods true p v)
+  | .modsPre, [.mods l _ v, _] => some (.mods l true v)
+  | .modsVol, [.mods l p _, _] => some (.mods l p true)
+  | .callBegin, [_, .mods l p v, x] => (idOf x).map fun d => .call ⟨d, d, [], Option.none, ⟨l, p, v, []⟩⟩
+  | .callBeginAs, [_, .mods l p v, x, _, y] =>
+    (idOf x).bind fun d => (idOf y).map fun i => .call ⟨d, i, [], Option.none, ⟨l, p, v, []⟩⟩
+  | .callBinds, [.call c, _, .binds bs, _] => some (.call { c with binds := (splitWild bs).1, wildcard := (splitWild bs).2 })
+  | .callMapBinds, [_, .call c, _, .binds bs, _] =>
+    some (.call { c with binds := (splitWild bs).1, wildcard := (splitWild bs).2 })
+  | .callUsing, [.call c, _, _, .binds ms, _] =>
+    some (.call { c with mods := { c.mods with binds := ms.map fun b => (b.id, b.exp) } })
+  | .bindsEmpty, [] => some (.binds [])
+  | .bindsSnoc, [.binds l, .bind b] => some (.binds (l ++ [b]))
+  | .bindsOne, [.bind b] => some (.binds [b])
+  | .modLocal, [_, _, .exp e, _] => some (.bind ⟨Martian.FormatCall2.sLocal, false, e⟩)
+  | .modPre, [_, _, .exp e, _] => some (.bind ⟨Martian.FormatCall2.sPreflight, false, e⟩)
+  | .modVol, [_, _, .exp e, _] => some (.bind ⟨Martian.FormatCall2.sVolatile, false, e⟩)
+  | .modDisabled, [_, _, .exp e, _] => some (.bind ⟨Martian.FormatCall2.sDisabled, false, e⟩)
+  | .bindStm, [x, _, .exp e, _] => (idOf x).map fun k => .bind ⟨k, false, e⟩
+  | .wildRef, [_, _, .exp e, _] => some (.bind ⟨Martian.FormatCall2.sStar, false, e⟩)
+  | .wildSelf, [_, _, _, _] => some (.bind ⟨Martian.FormatCall2.sStar, false, .ref true [] []⟩)
+  | .splitColl, [x, _, _, .exp e, _] => (idOf x).map fun k => .bind ⟨k, true, e⟩
+  | .splitRef, [x, _, _, .exp e, _] => (idOf x).map fun k => .bind ⟨k, true, e⟩
+  | .fileCall, [.call c] => some (.resultCall c)
   | _, _ => none
 
 /-- the semantic action of production `n` on its right-hand side values -/
@@ -196,17 +284,26 @@ def semStep (T : Tables) (st : SemState) : Event → SemState
 driver loop on the regenerated tables, the modelled semantic actions, and the
 result `mmlex.exp` of an accepting run (`none`: syntax error, an action that
 would panic, or not a value expression) -/
-def parseLR (ts : List Tok) : Option Exp :=
+def runSem (ts : List Tok) : Option Val :=
   let chars := ts.map tokChar
   let r := runFuel genTables (fun _ => false) (fuelFor genCert chars) (init chars) [.push 0]
   match r.1 with
   | .accept =>
     let st := r.2.reverse.foldl (semStep genTables) ⟨[], Option.none, ts, Option.none, true⟩
-    if st.ok then
-      match st.vals with
-      | .result e :: _ => some e
-      | _ => Option.none
-    else Option.none
+    if st.ok then st.vals.head? else Option.none
+  | _ => Option.none
+
+def parseLR (ts : List Tok) : Option Exp :=
+  match runSem ts with
+  | some (.result e) => some e
+  | _ => Option.none
+
+/-- the goyacc parser on a token list that is ONE call statement (`file:
+call_stm`): modifiers, `as`, bindings with `split` and the wildcard, `using`
+blocks — x-c09's `Call2` -/
+def parseLRCall (ts : List Tok) : Option Call2 :=
+  match runSem ts with
+  | some (.resultCall c) => some c
   | _ => Option.none
 
 mutual
